@@ -31,7 +31,11 @@ def gen_cases(tier, rng):
     def keep(n, b, c):
         sel = getattr(b, "select_for_mode", None)
         return sel(c, "nojit", "thorough") if sel else True
-    return meta.gen_cases(BASES, tier, rng, per, keep)
+
+    def prefer(n, b, c):
+        # cases built around a buffer boundary (flagged by the owning harness) are always included
+        return bool(c.get("unsafe") or c.get("_why") or c.get("_boundary"))
+    return meta.gen_cases(BASES, tier, rng, per, keep, prefer)
 
 
 impl = meta.impl
